@@ -406,6 +406,82 @@ def vi_step(sx, shape, gamma):
         sx.observe('sv', [sv[s] for s in range(sh.S)])
 
 
+def vi_step_symbolic_gamma(sx, shape):
+    """the same inductive step with a SYMBOLIC discount in (0,1] (polynomial identities of degree 2)"""
+    sh = SHAPES[shape]
+    rew = sym_rewards(sx, sh, -1, 1, per_next_state=False)
+    g = sx.real('gamma', 0, 1, lo_open=True)
+    V0 = [sx.real(f"V0_{s}", -10, 10) for s in range(sh.S)]
+    import numpy as rnp
+    from msdm.algorithms import valueiteration as vi
+    with facade(sx):
+        if sx.sym:
+            from symx.symnp import SymArray
+            arr = lambda x: SymArray(x)
+        else:
+            arr = lambda x: rnp.array(x, dtype=float)
+        T = [[[sx.const(sh.rows.get((s, a), {}).get(ns, 0)) for ns in range(sh.S)] for a in range(sh.A)] for s in range(sh.S)]
+        R = [[(rew[(s, a, next(iter(sh.rows[(s, a)])))] if a in sh.avail[s] else 0) for a in range(sh.A)] for s in range(sh.S)]
+        AM = rnp.array([[a in sh.avail[s] for a in range(sh.A)] for s in range(sh.S)], dtype=bool)
+        sv, av, it = vi.value_iteration_vectorized(transition_matrix=arr(T), discount_rate=g, state_action_reward_matrix=arr(R), action_matrix=AM,
+                                                   state_values=arr(V0), max_residual=sx.const(F(1, 1000)), max_iterations=1)
+        for s in range(sh.S):
+            for a in sh.avail[s]:
+                want = R[s][a] + g * ssum(T[s][a][ns] * V0[ns] for ns in range(sh.S))
+                sx.prove_eq(av[s, a], want, f'step-q-symbolic-discount[{s},{a}]')
+
+
+def sticky_state(sx, planner, gamma):
+    """SYMBOLIC transition probabilities on one small skeleton: a zero-reward state that loops on itself with probability p
+    (and leaks with 1-p), entered with symbolic probability u.  Only p == 1 makes it absorbing (documented rule); for every
+    other p its reported values must be the look-ahead of the successors' values (Bellman consistency within the planner's
+    threshold), i.e. it is planned through and not masked."""
+    g = F(gamma)
+    p = sx.real('p_loop', F(1, 2), 1)
+    u = sx.real('u_enter', 0, 1)
+    r0, r0b, r3 = sx.real('r_0_0', -1, 1), sx.real('r_0_1', -1, 1), sx.real('r_3_0', -1, 1)
+    eps = sx.real('eps', 0, 1, lo_open=True)
+    c = sx.const
+    # 0: a0 -> sticky(1) w.p. u, else 3; a1 -> goal.   1 (sticky): one action, self-loop p / leak to 3, zero rewards.   3: -> goal(2), reward r3
+    rows = {(0, 0): {1: u, 3: 1 - u}, (0, 1): {2: c(1)}, (1, 0): {1: p, 3: 1 - p}, (3, 0): {2: c(1)}, (2, 0): {2: c(1)}}
+    rw = {(0, 0): r0, (0, 1): r0b, (1, 0): 0, (3, 0): r3, (2, 0): 0}
+    avail = {0: [0, 1], 1: [0], 2: [0], 3: [0]}
+    from msdm.core.mdp import QuickTabularMDP
+    from msdm.core.distributions import DictDistribution
+    from msdm.algorithms.valueiteration import ValueIteration
+    from msdm.algorithms.policyiteration import PolicyIteration
+    with facade(sx), shadow(sx, ['msdm.algorithms.valueiteration']), fork_isclose(merge=True):
+        mdp = QuickTabularMDP(next_state_dist=lambda s, a: DictDistribution(rows[(s, a)]), reward=lambda s, a, ns: rw[(s, a)],
+                              actions=lambda s: tuple(avail[s]), initial_state_dist=DictDistribution({0: c(F(1, 2)), 1: c(F(1, 2))}),
+                              is_absorbing=lambda s: s == 2, discount_rate=c(g))
+        mdp._state_list = (0, 1, 2, 3)
+        mdp._action_list = (0, 1)
+        with sx.must_not_raise('plan'):
+            if planner == 'pi':
+                res = PolicyIteration(max_iterations=4).plan_on(mdp)
+            else:
+                res = ValueIteration(max_iterations=3 if planner == 'vi-dict' else 4, max_residual=eps,
+                                     _version='dict' if planner == 'vi-dict' else 'vectorized').plan_on(mdp)
+        v = {s: res.state_value[s] for s in range(4)}
+        q = {(s, a): (res.action_value[s][a] if planner == 'vi-dict' else res.action_value[s, a]) for s in range(4) for a in avail[s]}
+        is_abs = bool(p == 1)      # the documented rule for the sticky state (its rewards are all zero, it has one action)
+        sx.prove_eq(v[2], 0, 'goal-value-0')
+        if is_abs:
+            sx.prove_eq(v[1], 0, 'sticky-absorbing-when-p-is-exactly-1')
+        val = lambda ns: 0 if (ns == 2 or (ns == 1 and is_abs)) else v[ns]
+        # look-ahead consistency of the REPORTED tables on the documented model, on converged paths: exact for the vectorised
+        # planners (q is computed from the returned v), within g*eps for the dict planner
+        if not res.converged:
+            sx.cut('sweep cap')
+        tol = (g * eps if planner == 'vi-dict' else 0) + F(1, 10**9)
+        for (s, a), qq in q.items():
+            if s == 2 or (s == 1 and is_abs):
+                continue
+            want = ssum(pr * (rw[(s, a)] + c(g) * val(ns)) for ns, pr in rows[(s, a)].items())
+            sx.prove_eq(qq, want, f'sticky-q-is-lookahead-of-v[{s},{a}]', tol=tol)
+        sx.observe('V', [v[s] for s in range(4)])
+
+
 def jobs(tier):
     quick = tier == 'quick'
     o = dict(timeout_ms=60000, budget_s=600 if quick else 3000, max_paths=6000)
@@ -415,6 +491,8 @@ def jobs(tier):
         for g in gam:
             gs = str(g)
             yield ('vi_step', dict(shape=i, gamma=gs), o)
+            if g == gam[0]:
+                yield ('vi_step_symbolic_gamma', dict(shape=i), o)
             for ver in ['vectorized', 'dict']:
                 if quick:
                     K = 3 if i in dense else (4 if ver == 'dict' else 5)
@@ -428,6 +506,9 @@ def jobs(tier):
                 yield ('pi_discounted', dict(shape=i, gamma=gs, direct=(i in (0, 1, 3)) or not quick), dict(o, cost=5))
         if not (quick and i in dense):
             yield ('vi_versions_agree', dict(shape=i, gamma='1/2', K=3 if quick else 5), o)
+    for pl in ['vi-vectorized', 'vi-dict', 'pi']:
+        for gs in (['1/2'] if quick else ['1/2', '9/10']):
+            yield ('sticky_state', dict(planner=pl, gamma=gs), o)
     yield ('vi_discounted', dict(shape=3, gamma='1/2', version='vectorized', K=4, lab='str'), o)
     yield ('vi_discounted', dict(shape=3, gamma='1/2', version='dict', K=3, lab='mixed'), o)
     yield ('pi_discounted', dict(shape=3, gamma='1/2', lab='str'), o)
